@@ -31,6 +31,24 @@ def reg_atomic():
     return i_lock < i_create and 0 <= i_closed < i_create and closes
 
 
+def check_locked():
+    """Design parameter read from the source: is the NAMED_TEMP_FILES_CLOSED test of decompress_to_ntf made after the
+    NAMED_TEMP_FILES write lock was taken (True) or before (False: check-then-act)?  Meaningful when reg_atomic()."""
+    text = open(os.path.join(common.REPO, "src/readers/filedecompressor.rs"), encoding="utf-8", errors="replace").read()
+    m = re.search(r"pub fn decompress_to_ntf\(", text)
+    if not m:
+        raise ToolError("anchor decompress_to_ntf not found")
+    body = text[m.end():]
+    i_lock = body.find("NAMED_TEMP_FILES).write()")
+    if i_lock < 0:
+        i_lock = body.find("NAMED_TEMP_FILES.write()")
+    i_create = body.find(".tempfile()")
+    tests = [x.start() for x in re.finditer(r"NAMED_TEMP_FILES_CLOSED\.load", body) if x.start() < i_create]
+    if not tests:
+        return True     # no test at all: REGATOMIC is False, the parameter is not used
+    return any(i_lock < t for t in tests)
+
+
 def final_sweep():
     """Design parameter read from the source: does `main` remove the still-listed temp files after processing_loop has
     returned (workers are not joined)?  Anchors missing = tool error."""
@@ -54,7 +72,7 @@ def s4run_constants(N, M, DT, tmpw=(), sig=False, shapes=("ok",), dropfirst=True
     return {"N": N, "M": M, "DT": set(DT), "CAP": common.channel_capacity(), "TMPW": set(tmpw), "SIG": sig,
             "SHAPES": set(shapes), "DROPFIRST": dropfirst,
             "REGATOMIC": reg_atomic() if regatomic is None else regatomic, "EPIPE": epipe,
-            "SWEEP": final_sweep() if sweep is None else sweep}
+            "SWEEP": final_sweep() if sweep is None else sweep, "CHECKLOCKED": check_locked()}
 
 
 def model_check(workdir, name, consts, invariants, properties, workers=8, timeout=900, coverage=False):
@@ -199,8 +217,10 @@ def simulate_plans(workdir, dts_ranks, num=20, depth=400, seed=1, tmpw=(), sig=F
                 plan += [("sig", "HRemoved")]
             elif kind == "F":
                 plan += [("sig", "HFlag")]
+            elif kind == "L":
+                plan += [("w%d" % (w - 1), "TempLock")]
             elif kind == "W":
-                plan += [("main", "Sweep")]
+                plan += [("main", "Sweep"), ("main", "SweepDone")]
             elif kind == "E":
                 plan += [("main", "MainExit")]
         if bad:
